@@ -93,6 +93,54 @@ def rule_r1(F, rep):
                       "when run() fails, Evaluator::eval returns without any step that resets the thunks it had marked "
                       "in progress (no call on the error exit reaches a mutator of ThunkData.state): a later request on the "
                       "same Program that touches such a thunk fails with `infinite recursion`", body.span(body.blocks[sorted(err_blocks)[0]]["t"]["sp"]))
+    # the other progress marker a request sets before the work is done: ObjectData.asserts_checked
+    OBJ = "rsjsonnet_lang::program::data::ObjectData"
+    setters = []
+    for fn in F.fn_list:
+        if fn.crate.name != "rsjsonnet_lang":
+            continue
+        P = None
+        for bb, t in fn.body.calls():
+            if (callee_name(t) or "") != "<core::cell::Cell>::set":
+                continue
+            if P is None:
+                P = prov.Prov(F, fn.body)
+                P.with_base = True
+            org = P.origins_op(t["xs"][0])
+            if any(o[0] == "field" and o[1] == OBJ and o[2] == "asserts_checked" for o in org):
+                v = t["xs"][1]
+                setters.append((fn, bb, v.get("v") if v["k"] == "const" else None))
+    early = []
+    for fn, bb, val in setters:
+        if val != 1:
+            continue
+        # assertion states scheduled by the same function after the flag is set: the flag says "checked" before they ran
+        succ2 = fn.body.succ_map()
+        after = cfg.reachable(succ2, [bb])
+        sched = any(st["k"] == "assign" and st["rv"]["k"] == "agg" and st["rv"].get("adt") == em.STATE and st["rv"]["v"] == "Assert"
+                    for b2 in after for st in fn.body.blocks[b2]["s"])
+        if sched:
+            early.append((fn, bb))
+    # is the flag ever put back (set(false)) on the error exit of eval?
+    resets_on_err = False
+    for bb in sorted(on_err):
+        t = body.blocks[bb]["t"]
+        if t["k"] == "call":
+            n = callee_name(t) or ""
+            targets = G.instances_of(n) or [n]
+            reach = G.reachable_from(targets)
+            defs = {G.nodes[x]["def"] for x in reach if x in G.nodes} | {n}
+            if any(fn.q in defs and val == 0 for fn, _, val in setters):
+                resets_on_err = True
+    ok2 = not early or resets_on_err
+    rep.ob(R, "eval|error-exit-restores-assert-flags", ok2, {"flag_set_before_assertions_run_in": sorted({fn.q for fn, _ in early}),
+                                                             "reset_on_error_exit": resets_on_err})
+    if not ok2:
+        fn0, bb0 = early[0]
+        rep.violation(R, "%s|Err-exit|asserts_checked" % ev.q,
+                      "%s marks an object's assertions as checked before they have run, and the error exit of Evaluator::eval never "
+                      "clears the mark: after a request that failed on such an assertion, a later request on the same state skips "
+                      "it and succeeds where a fresh state fails" % fn0.q, fn0.body.span(fn0.body.blocks[bb0]["t"]["sp"]))
     # on the success path everything was completed: the emptiness assertions are reached
     names = [callee_name(t) or "" for _, t in body.calls()]
     asserts = sum(1 for n in names if n.endswith("Vec>::is_empty"))
@@ -309,6 +357,33 @@ def rule_r5(F, rep):
                           % (v, sorted(map(str, seqs)), want), ev.loc)
 
 
+def rule_r6(F, rep):
+    R = rep.rule("C11.R6", "import resolution keeps no memory of earlier requests: the function that maps an import string to a "
+                 "file (find_import) takes the session by shared reference and therefore cannot record where an earlier import of "
+                 "the same string was found; the only cross-request memo of the front-end is the source cache keyed by canonical path")
+    SI = "rsjsonnet_front::session::SessionInner"
+    fn = F.fn("<%s>::find_import" % SI)
+    rep.fn(fn)
+    t1 = fn.body.local_ty(1)
+    shared = t1["k"] == "ref" and not t1.get("m") and "&mut" not in t1["s"]
+    rep.ob(R, "find_import|shared-self", shared, {"self_type": t1["s"]})
+    if not shared:
+        rep.violation(R, "find_import|mutable-session", "find_import takes the session mutably (%s): it can record state between "
+                      "requests, so where an import resolves may depend on what was imported before" % t1["s"], fn.loc)
+    a = F.adt(SI)
+    maps = [f["n"] for f in a["variants"][0]["fields"] if "HashMap" in fn.crate.types[f["t"]]["s"] or "BTreeMap" in fn.crate.types[f["t"]]["s"]]
+    allowed = {"source_cache": "loaded sources by canonical path (C13.R2)",
+               "source_paths": "registry SourceId -> path of each loaded source (append-only, keyed by the id the span manager issued)",
+               "native_funcs": "configuration: native functions registered by the embedder"}
+    extra = [m for m in maps if m not in allowed]
+    okm = not extra and "source_cache" in maps
+    rep.ob(R, "SessionInner|memo-fields", okm, {"map_fields": maps})
+    if not okm:
+        rep.violation(R, "SessionInner|memo-fields|%s" % ",".join(extra), "SessionInner holds the additional map(s) %s; beyond %s nothing "
+                      "may be remembered across requests (a memo keyed by the import string forgets which directory asked)"
+                      % (extra, sorted(allowed)), fn.loc)
+
+
 def run(F, rep, tier):
     rule_r1(F, rep)
     rule_r2(F, rep)
@@ -316,6 +391,7 @@ def run(F, rep, tier):
     from . import objflags
     objflags.rule(F, rep, "C11.R4")
     rule_r5(F, rep)
+    rule_r6(F, rep)
     rep.assume("order-independence of values in general and collections between requests (C03) are not decided; "
                "the interner and arena are append-only and their order is unobservable (C05.R4)")
     return EXPLANATION
